@@ -38,10 +38,14 @@ type lambda struct {
 type param struct {
 	name     sym
 	optional bool
+	key      bool
 	def      val
 }
 
 type refErr struct{ class, msg string }
+
+// refAbsent marks a parameter for which no argument was passed (binding of &key parameters).
+type refAbsent struct{}
 
 // refReturn is a (return-from name value) in flight; a defun establishes the block `name`.
 type refReturn struct {
@@ -381,6 +385,9 @@ func (m *refMachine) eval(v val, e *env) val {
 	case compiledMark:
 		return m.eval(t.form, e)
 	case sym:
+		if strings.HasPrefix(string(t), ":") {
+			return t // a keyword evaluates to itself
+		}
 		if c := e.find(t); c != nil {
 			return *c
 		}
@@ -626,7 +633,7 @@ func (m *refMachine) evalArgs(l *lst, e *env) []val {
 func (m *refMachine) makeLambda(name string, ll val, body []val, closure *env, macro bool) *lambda {
 	fn := &lambda{name: name, body: body, env: closure, macro: macro}
 	if pl, ok := ll.(*lst); ok {
-		opt := false
+		opt, key := false, false
 		for _, p := range pl.items {
 			switch tp := p.(type) {
 			case sym:
@@ -634,9 +641,13 @@ func (m *refMachine) makeLambda(name string, ll val, body []val, closure *env, m
 					opt = true
 					continue
 				}
-				fn.params = append(fn.params, param{name: tp, optional: opt})
+				if tp == "&key" {
+					opt, key = false, true
+					continue
+				}
+				fn.params = append(fn.params, param{name: tp, optional: opt, key: key})
 			case *lst:
-				fn.params = append(fn.params, param{name: tp.items[0].(sym), optional: opt, def: tp.items[1]})
+				fn.params = append(fn.params, param{name: tp.items[0].(sym), optional: opt, key: key, def: tp.items[1]})
 			}
 		}
 	}
@@ -644,11 +655,68 @@ func (m *refMachine) makeLambda(name string, ll val, body []val, closure *env, m
 }
 
 func (m *refMachine) bind(fn *lambda, ne *env, argv []val) {
+	npos := 0
+	for _, p := range fn.params {
+		if !p.key {
+			npos++
+		}
+	}
+	if npos < len(fn.params) {
+		// &key: the arguments after the positional ones are keyword/value pairs (CLHS 3.4.1.4); the programs pass
+		// declared keywords only, each at most once
+		pos := argv
+		if npos < len(argv) {
+			pos = argv[:npos]
+		}
+		rest := argv[len(pos):]
+		if len(rest)%2 != 0 {
+			m.fail("error", "Odd number of keyword arguments to %s.", fn.name)
+		}
+		keyed := map[sym]val{}
+		for i := 0; i < len(rest); i += 2 {
+			k, ok := rest[i].(sym)
+			declared := false
+			for _, p := range fn.params {
+				if p.key && ok && ":"+p.name == k {
+					declared = true
+				}
+			}
+			if !declared {
+				m.fail("error", "%s is not a keyword of %s.", refShow(rest[i]), fn.name)
+			}
+			if _, dup := keyed[k]; !dup {
+				keyed[k] = rest[i+1]
+			}
+		}
+		argv = append([]val(nil), pos...)
+		for len(argv) < npos {
+			argv = append(argv, refAbsent{})
+		}
+		for _, p := range fn.params {
+			if !p.key {
+				continue
+			}
+			if v, has := keyed[":"+p.name]; has {
+				argv = append(argv, v)
+			} else {
+				argv = append(argv, refAbsent{})
+			}
+		}
+	}
 	if len(fn.params) < len(argv) {
 		m.fail("error", "Too many arguments to %s.", fn.name)
 	}
 	for i, p := range fn.params {
 		var cell val
+		if i < len(argv) {
+			if _, absent := argv[i].(refAbsent); absent {
+				if p.optional || p.key {
+					c := p.def
+					ne.vars[p.name] = &c
+				}
+				continue
+			}
+		}
 		switch {
 		case i < len(argv):
 			cell = argv[i]
